@@ -88,6 +88,7 @@ def verify_function(world, qual, timeout_ms=10000):
     ctx = pick_ctx(world, finfo, contract)
     ex = Exec(world, finfo, contract, ctx_cls=ctx, solver_timeout_ms=timeout_ms)
     calls.USED_BUILTINS.clear()
+    calls.USED_TRUSTED.clear()
     try:
         st = entry_state(ex, finfo, contract)
         for r in contract.requires:
@@ -109,11 +110,19 @@ def verify_function(world, qual, timeout_ms=10000):
         return res
     res.symex_seconds = time.time() - t0
     discharge(ex.obls, timeout_ms)
+    # one retry with a tripled budget for what stayed undecided (solver budgets must not flip verdicts under load)
+    for ob in ex.obls:
+        if ob.verdict == 'undecided':
+            first = ob.seconds
+            ob.verdict = None
+            solve_one(ob, timeout_ms * 3)
+            ob.note = (ob.note or '') + ' (retry after %.1fs undecided)' % first
+            ob.seconds += first
     for ob in ex.obls:
         res.obligations.append({'name': ob.name, 'kind': ob.kind, 'verdict': ob.verdict, 'backend': ob.backend,
                                 'seconds': round(ob.seconds, 4), 'detail': ob.detail, 'model': ob.model, 'note': ob.note})
         res.solver_seconds += ob.seconds
-    res.builtins = sorted(calls.USED_BUILTINS)
+    res.builtins = sorted(calls.USED_BUILTINS) + ['ASSUMED CONTRACT %s: %s' % (q, w) for q, w in sorted(calls.USED_TRUSTED.items())]
     return res
 
 
@@ -219,39 +228,145 @@ def solve_one(ob, timeout_ms):
         ob.verdict, ob.backend, ob.seconds = 'proved', 'simplifier', time.time() - t
         return
     has_q = any_quantifier(ob.pc + [ob.goal])
-    # portfolio: quantified VCs are unstable under z3's default mbqi; try E-matching only, then other seeds, then cvc5
-    configs = [{}]
-    if has_q:
-        configs = [{'smt.mbqi': False}, {}, {'smt.mbqi': False, 'smt.random_seed': 7}, {'smt.random_seed': 3}]
-    r = z3.unknown
-    note = ''
-    slice_ms = max(1000, timeout_ms // (len(configs) + (1 if has_q else 0)))
-    for k, cfg in enumerate(configs):
+
+    def attempt(hyps, goal, ms, cfg=None):
         s = z3.Solver()
-        s.set('timeout', slice_ms if has_q else timeout_ms)
-        for kk, vv in cfg.items():
+        s.set('timeout', int(ms))
+        for kk, vv in (cfg or {}).items():
             s.set(kk, vv)
-        s.add(*ob.pc)
-        s.add(z3.Not(ob.goal))
-        r = s.check()
-        if r != z3.unknown:
-            break
-        note = s.reason_unknown()
+        s.add(*hyps)
+        s.add(z3.Not(goal))
+        return s.check(), s
+
+    r, s, note = z3.unknown, None, ''
+    if not has_q:
+        r, s = attempt(ob.pc, ob.goal, timeout_ms)
+    else:
+        # staged portfolio; every stage is sound for `unsat` (hypotheses are only dropped or instantiated, the goal only Skolemised)
+        goal_sk, sk = skolemize(ob.goal)
+        qf = [f for f in ob.pc if not any_quantifier([f])]
+        stages = [('ematch', ob.pc, ob.goal, max(2500, timeout_ms // 3), {'smt.mbqi': False})]
+        if not any_quantifier([goal_sk]):
+            stages.append(('qf', qf, goal_sk, min(1500, timeout_ms), None))
+            stages.append(('inst', None, goal_sk, max(3000, timeout_ms // 3), None))
+        stages.append(('default', ob.pc, ob.goal, max(3000, timeout_ms // 3), None))
+        stages.append(('ematch-seed7', ob.pc, ob.goal, max(3000, timeout_ms // 3), {'smt.mbqi': False, 'smt.random_seed': 7}))
+        for name, hyps, goal, ms, cfg in stages:
+            if name == 'inst':
+                extra = instances(ob.pc, goal_sk, sk, qf)
+                if not extra:
+                    continue
+                hyps = qf + extra
+            r, s = attempt(hyps, goal, ms, cfg)
+            if r == z3.unsat:
+                note = 'stage ' + name
+                break
+            if r == z3.sat and name == 'default':
+                break
+            if r == z3.unknown:
+                note = s.reason_unknown()
+            r = z3.unknown if r != z3.unsat else r
     ob.backend = 'z3'
     if r == z3.unsat:
         ob.verdict = 'proved'
+        ob.note = note
     elif r == z3.sat:
         ob.verdict = 'refuted'
         ob.model = model_to_py(s.model())
     else:
         ob.verdict = 'undecided'
         ob.note = note
-        r2 = cvc5_check(s, timeout_s=max(10, timeout_ms // 1000))
+        full = z3.Solver()
+        full.add(*ob.pc)
+        full.add(z3.Not(ob.goal))
+        r2 = cvc5_check(full, timeout_s=max(10, timeout_ms // 1000))
         if r2 == 'unsat':
             ob.verdict, ob.backend = 'proved', 'cvc5'
         elif r2 == 'sat':
             ob.verdict, ob.backend = 'refuted', 'cvc5'
     ob.seconds = time.time() - t
+
+
+def skolemize(goal):
+    """strip top-level universal quantifiers (also under And / the consequent of Implies) replacing bound variables by fresh constants"""
+    sk = []
+
+    def go(g, depth=0):
+        if z3.is_quantifier(g) and g.is_forall():
+            vs = [z3.Const(fresh_name('sk_' + g.var_name(i)), g.var_sort(i)) for i in range(g.num_vars())]
+            sk.extend(vs)
+            return go(z3.substitute_vars(g.body(), *reversed(vs)), depth + 1)
+        if z3.is_and(g) and depth < 6:
+            return z3.And(*[go(c, depth + 1) for c in g.children()])
+        if z3.is_implies(g) and depth < 6:
+            return z3.Implies(g.arg(0), go(g.arg(1), depth + 1))
+        return g
+    return go(goal), sk
+
+
+def ground_terms(fs, sort, limit=40):
+    """ground subterms of the given sort that occur as arguments of selects / nth / uninterpreted applications"""
+    out, seen, stack = {}, set(), list(fs)
+    while stack and len(seen) < 30000:
+        f = stack.pop()
+        i = f.get_id()
+        if i in seen:
+            continue
+        seen.add(i)
+        if z3.is_quantifier(f):
+            continue
+        if z3.is_app(f):
+            for c in f.children():
+                stack.append(c)
+                if c.sort().eq(sort) and not z3.is_int_value(c) and f.decl().kind() in (z3.Z3_OP_SELECT, z3.Z3_OP_SEQ_NTH, z3.Z3_OP_UNINTERPRETED, z3.Z3_OP_SEQ_AT, z3.Z3_OP_SEQ_EXTRACT):
+                    if not has_var(c):
+                        out[c.get_id()] = c
+    return list(out.values())[:limit]
+
+
+def has_var(t):
+    stack, seen = [t], set()
+    while stack:
+        f = stack.pop()
+        if f.get_id() in seen:
+            continue
+        seen.add(f.get_id())
+        if z3.is_var(f):
+            return True
+        if z3.is_app(f):
+            stack.extend(f.children())
+    return False
+
+
+def instances(pc, goal_sk, sk, qf, limit=400):
+    """instances of the universally quantified hypotheses (single bound variable, also under Implies/And) at the Skolem
+    constants of the goal and at the ground index terms of the goal and the quantifier-free hypotheses"""
+    out = []
+    cands = {}
+    for c in sk:
+        cands.setdefault(c.sort().name(), []).append(c)
+    for srt in (z3.IntSort(), V):
+        for g in ground_terms([goal_sk] + qf[-60:], srt):
+            cands.setdefault(srt.name(), []).append(g)
+
+    def inst(f, guard):
+        if len(out) >= limit:
+            return
+        if z3.is_quantifier(f) and f.is_forall() and f.num_vars() == 1:
+            for c in cands.get(f.var_sort(0).name(), []):
+                b = z3.substitute_vars(f.body(), c)
+                out.append(z3.Implies(guard, b) if guard is not None else b)
+                if len(out) >= limit:
+                    return
+        elif z3.is_and(f):
+            for c in f.children():
+                inst(c, guard)
+        elif z3.is_implies(f) and any_quantifier([f.arg(1)]) and not any_quantifier([f.arg(0)]):
+            inst(f.arg(1), f.arg(0) if guard is None else z3.And(guard, f.arg(0)))
+    for f in pc:
+        if any_quantifier([f]):
+            inst(f, None)
+    return out
 
 
 def any_quantifier(fs):
